@@ -132,3 +132,36 @@ pub fn auto_coeff(n: usize, g: i64, i: usize, a: impl Fn(usize) -> i64) -> i64 {
     }
     acc
 }
+
+/// Base address of the harness' scratch arena (64-byte aligned: `Buf` is `repr(align(64))`).
+pub static mut ARENA_BASE: *const u8 = core::ptr::null();
+
+pub fn set_arena(base: *const u8) {
+    assert!(base as usize % 64 == 0, "harness arena not 64-byte aligned");
+    unsafe { ARENA_BASE = base };
+}
+
+/// Stand-in for the private `poulpy_cpu_ref::hal_defaults::scratch::take_slice_aligned`: identical
+/// body, except that the padding to the next 64-byte boundary is computed from the *offset of the
+/// window inside the (64-byte aligned) harness arena* instead of from the integer value of the
+/// pointer.  Same function on the harness' arenas, but it keeps every scratch offset a constant for
+/// the symbolic engine (the integer address of an object is a free variable in CBMC, which turns
+/// every scratch access into a symbolic-index array access).  The real function is decided on its
+/// own by the C12 `scratch.take_slice*` harnesses.
+pub fn take_slice_aligned_stub(data: &mut [u8], take_len: usize) -> (&mut [u8], &mut [u8]) {
+    let ptr: *mut u8 = data.as_mut_ptr();
+    let self_len: usize = data.len();
+    let off = unsafe { (ptr as *const u8).offset_from(ARENA_BASE) } as usize;
+    let aligned_offset: usize = (64 - off % 64) % 64;
+    let aligned_len: usize = self_len.saturating_sub(aligned_offset);
+    if let Some(rem_len) = aligned_len.checked_sub(take_len) {
+        unsafe {
+            let rem_ptr: *mut u8 = ptr.add(aligned_offset).add(take_len);
+            let rem_slice: &mut [u8] = &mut *std::ptr::slice_from_raw_parts_mut(rem_ptr, rem_len);
+            let take_slice: &mut [u8] = &mut *std::ptr::slice_from_raw_parts_mut(ptr.add(aligned_offset), take_len);
+            (take_slice, rem_slice)
+        }
+    } else {
+        panic!("Attempted to take from scratch with too few aligned bytes left");
+    }
+}
